@@ -14,9 +14,9 @@ open Hive.C12a
 structure All where
   shrink : Shrink.DSt := Shrink.dinit
   rmap : RMap.DSt := RMap.dinit
-  gh : Heap.St := Heap.init false
-  pq : Heap.St := Heap.init false
-  tpq : Heap.St := Heap.init true
+  gh : Heap.St := Heap.init Heap.Cmp.asc
+  pq : Heap.St := Heap.init Heap.Cmp.asc
+  tpq : Heap.St := Heap.init Heap.Cmp.dsc
   queue : Queue.St := Queue.init 1
   ring : Ring.St := Ring.init 1
   stack : Stack.St := Stack.init
